@@ -11,7 +11,8 @@
 EXTENDS Integers, Sequences, FiniteSets, TLC, Json
 CONSTANTS MaxLen, Alphabet, Truncate,
           DEV_Lookahead4,     \* pinned tree: the leading-CR boundary check needs len > 4
-          DEV_EofPending      \* pinned tree: waits for more data even after end of stream
+          DEV_EofPending,     \* pinned tree: waits for more data even after end of stream
+          DEV_BareCr          \* before its repair: a lone CR followed by "--" was also taken for the start of a delimiter
 VARIABLES content, stream, fed, cut, buf, eof, outc, state, hist
 
 Delim == <<"CR", "LF", "D", "D", "P", "Q">>
@@ -40,7 +41,7 @@ Eof ==
 (* index of the first CR at or after position p (1-based), 0 if none *)
 FindCR(b, p) == IF \E i \in p..Len(b) : b[i] = "CR" THEN CHOOSE i \in p..Len(b) : b[i] = "CR" /\ \A j \in p..(i-1) : b[j] # "CR" ELSE 0
 BLike(b, c) == \* boundary-like at 1-based index c (needs c + 3 <= Len(b))
-  (b[c] = "CR" /\ b[c+1] = "LF" /\ b[c+2] = "D" /\ b[c+3] = "D") \/ (b[c] = "CR" /\ b[c+1] = "D" /\ b[c+2] = "D")
+  (b[c] = "CR" /\ b[c+1] = "LF" /\ b[c+2] = "D" /\ b[c+3] = "D") \/ (DEV_BareCr /\ b[c] = "CR" /\ b[c+1] = "D" /\ b[c+2] = "D")
 RECURSIVE Scan(_, _)
 Scan(b, p) ==        \* the `loop` of read_stream; returns [k, n]
   LET c == FindCR(b, p) IN
@@ -57,7 +58,7 @@ ReadStream(b) ==
   LET lead == (IF DEV_Lookahead4 THEN len > 4 ELSE len >= 4) /\ b[1] = "CR"
       blen == IF ~lead THEN 0
               ELSE IF b[2] = "LF" /\ b[3] = "D" /\ b[4] = "D" THEN 4
-              ELSE IF b[2] = "D" /\ b[3] = "D" THEN 3 ELSE 0
+              ELSE IF DEV_BareCr /\ b[2] = "D" /\ b[3] = "D" THEN 3 ELSE 0
   IN IF blen > 0 /\ len < blen + 2 THEN (IF eof /\ ~DEV_EofPending THEN [k |-> "err", n |-> 0] ELSE [k |-> "pending", n |-> 0])
      ELSE IF blen > 0 /\ b[blen + 1] = "P" /\ b[blen + 2] = "Q" THEN [k |-> "boundary", n |-> 0]
      ELSE Scan(b, 1)
